@@ -368,16 +368,17 @@ EXPANSIONS = {
 }
 
 
-def dim(E):
-    """dimension vector of the AST from my table (KeyError for a name without a table entry)"""
+def dim(E, table=None):
+    """dimension vector of the AST from my table, or from ``table`` (KeyError for a name without a table entry)"""
+    table = DIM if table is None else table
     acc = [0.0] * 5
     for i, F in enumerate(E[1]):
         if F[0] == 'u':
-            d = [float(v) for v in DIM[F[1]]]
+            d = [float(v) for v in table[F[1]]]
         elif F[0] == 'n':
             d = [0.0] * 5
         else:
-            d = dim(F[1])
+            d = dim(F[1], table)
         x = exponent_value(F[2])
         if x is not None:
             d = [v * x for v in d]
